@@ -9,6 +9,7 @@ import (
 	"github.com/matrix-org/gomatrixserverlib/spec"
 	"github.com/tidwall/gjson"
 	"github.com/tidwall/sjson"
+	"golang.org/x/crypto/ed25519"
 )
 
 type eventV3 struct {
@@ -39,6 +40,26 @@ func (e *eventV3) AuthEventIDs() []string {
 		return append([]string{createEventID}, e.AuthEvents...)
 	}
 	return []string{createEventID}
+}
+
+// SetUnsigned returns a copy of the event with the "unsigned" key set. The copy keeps the
+// room-version specific behaviour of this event (room ID and auth events derived from the create event).
+func (e *eventV3) SetUnsigned(unsigned interface{}) (PDU, error) {
+	res, err := e.eventV2.SetUnsigned(unsigned)
+	if err != nil {
+		return nil, err
+	}
+	v2, ok := res.(*eventV2)
+	if !ok {
+		return nil, fmt.Errorf("gomatrixserverlib: SetUnsigned returned unexpected type %T", res)
+	}
+	return &eventV3{eventV2: *v2}, nil
+}
+
+// Sign adds a signature to the event and returns it, keeping the room-version specific behaviour of this event.
+func (e *eventV3) Sign(signingName string, keyID KeyID, privateKey ed25519.PrivateKey) PDU {
+	e.eventV2.Sign(signingName, keyID, privateKey)
+	return e
 }
 
 func newEventFromUntrustedJSONV3(eventJSON []byte, roomVersion IRoomVersion) (PDU, error) {
